@@ -9,9 +9,9 @@ BUILDS = [(("drv_session_" + s, ["drv_session.cpp"]), {"flags": ["-O0", "-DVT_TY
 ACTIONS = ("TCfg", "TNew", "TBegin", "TIter", "TEnd", "TReload", "TRollback", "TFinal")
 
 
-def run_session(chk, mode_mask, key, what, need, replay=None):
+def run_session(chk, mode_mask, key, what, need, replay=None, big=False):
     thorough = chk.tier == "thorough"
-    chk.model("MC_Session", "MC_Session_thorough" if thorough else "MC_Session", workers=8,
+    chk.model("MC_Session", ("MC_Session_big" if big else "MC_Session_thorough") if thorough else "MC_Session", workers=12, heap="12g", timeout=1800,
               what="MC_Session: all histories of iterate/begin/return/save+load/rollback: ChkIsUninterrupted, GensInvariant, ModeNonInterference, callback protocol")
     with concurrent.futures.ThreadPoolExecutor(max_workers=3) as ex:
         exes = list(ex.map(lambda b: vt.build(*b[0], **b[1]), BUILDS))
